@@ -51,6 +51,7 @@ let () =
             s_zero = 0.0; s_eps = r32 1e-6; s_half = 0.5;
             s_fabs = Float.abs; s_ltb = (fun a b -> a < b); s_geb = (fun a b -> a >= b);
             s_isfinite = Float.is_finite;
+            s_iszero = (fun x -> x = 0.0);
             s_add = (fun a b -> r32 (a +. b));
             s_sub = (fun a b ->
                 (* the subtraction in [trial] directly follows s_mul on (step, d): the model's
@@ -75,7 +76,7 @@ let () =
             s_mul = (fun a b -> pending_mul := (a, b); in_trial := true; r32 (a *. b));
             s_div = (fun a b -> r32 (a /. b));
             s_sq = (fun x -> r32 (x *. x));
-            s_halve = (fun x -> x /. 2.0);
+            s_halve = (fun x -> r32 (x /. 2.0));      (* binary32: underflows to 0 *)
             s_mul_d = (fun a b -> a *. b);
           } in
           ignore cur_sub;
